@@ -44,6 +44,7 @@ class WTable:
     def __init__(self):
         self.lines = []
         self.triggers = []      # list of lists of code units
+        self.tails = []         # triggers that matter at the very end of the input
         self.cellseqs = []      # list of lists of cells (without LOU_DOTS)
         self.features = set()
         self.cell = {}          # char -> cell
@@ -332,6 +333,10 @@ def gen(rng, want=None):
         s = _word(rng, w, 1, 3, allc)
         L.append("repeated %s %s" % (chs(s), cells_str(_cells(rng, w, lo=1, hi=4))))
         w.triggers.append(s * rng.randint(2, 5) + s[: rng.randint(0, len(s))])
+        # at the very END of the input: a run followed by the beginning of one more repetition (the comparison of the
+        # next repetition must stop at the end of the input - seeded change C04-B)
+        for j in range(1, len(s)):
+            w.tails.append(s * rng.randint(1, 3) + s[:j])
     if feat("repword", 0.3):
         s = _word(rng, w, 1, 2, w.puncts)
         L.append("repword %s %s" % (chs(s), cells_str(_cells(rng, w, lo=1, hi=4))))
@@ -496,7 +501,13 @@ def text_for(rng, w, maxlen=16):
         u += s
         if len(u) >= maxlen:
             break
-    return u[:maxlen]
+    u = u[:maxlen]
+    tails = getattr(w, "tails", None)
+    if tails and rng.random() < 0.3:
+        t = list(rng.choice(tails))
+        u = u[: max(0, maxlen - len(t) - 1)]
+        u = (u + [0x20] if u and rng.random() < 0.5 else u) + t
+    return u
 
 
 def typeform_for(rng, w, n):
